@@ -37,6 +37,12 @@ CTXVAL = 7
 RUN_ACTIONS = ["MCEvalConst", "MCReject", "MCDone", "MCCall", "MCGet"]
 BUILD_ACTIONS = ["MCAddEdge", "MCInjectEdge", "MCInjectCtx", "MCStart"]
 
+# forms of a use site of an i32 value (constant, function result, integer context variable)
+INT_FORMS = ["paren", "block", "letblock", "ifelse", "cond", "match", "hostarg", "neg", "method", "methodarg", "fstring"]
+PATH_ONLY_FORMS = ("method", "cond")     # need a path (constant / context variable), not a call
+# forms of a use site of the String context variable
+STR_FORMS = ["s_hostarg", "s_method", "s_method2", "s_len", "s_cond", "s_methodarg", "s_fstring", "s_letblock", "s_eq"]
+
 LAYOUTS = [
     [[]],
     [[], ["m1"], ["m2"]],
@@ -201,12 +207,16 @@ def make_script(g, rng, layout_idx=None, order=None):
             path = name
         styles_used.add("path:" + how)
         e = path if call_arg is None else "%s(%s)" % (path, call_arg)
-        wrap = rng.choice(["direct", "direct", "paren", "block", "letblock", "ifelse", "hostarg", "neg", "method", "fstring"])
-        if wrap == "method" and call_arg is not None:
-            wrap = "fstring"           # a method call on a path is only a mention for constants
-        if local_import and wrap not in ("block", "letblock"):
+        role = "const" if call_arg is None else "fn"
+        return use_int(e, role, "t%d" % j, local_import, call_arg is None)
+
+    def use_int(e, role, tmp, local_import, is_path):
+        """one use site of the i32 expression e (a constant path, a function call, a context variable)"""
+        forms = INT_FORMS if is_path else [f for f in INT_FORMS if f not in PATH_ONLY_FORMS]
+        wrap = rng.choice(forms + ["direct"])
+        if local_import and wrap not in ("block", "letblock", "cond"):
             wrap = "block"
-        styles_used.add("wrap:" + wrap)
+        styles_used.add("use:%s:%s" % (role, wrap))
         imp = (local_import + " ") if local_import else ""
         if wrap == "direct":
             return e
@@ -215,16 +225,42 @@ def make_script(g, rng, layout_idx=None, order=None):
         if wrap == "block":
             return "({ %s%s })" % (imp, e)
         if wrap == "letblock":
-            return "({ %slet t%d = %s; t%d })" % (imp, j, e, j)
+            return "({ %slet %s = %s; %s })" % (imp, tmp, e, tmp)
         if wrap == "ifelse":
             return "(if 1 == 1 { %s } else { 0 })" % e
+        if wrap == "cond":
+            # the only use site is a loop condition; the loop counts up to the value (0 <= value < Modulus)
+            return "({ %slet %s = 0; while %s < %s { %s = %s + 1; } %s })" % (imp, tmp, tmp, e, tmp, tmp, tmp)
+        if wrap == "match":
+            return "(match Option.Some(%s) { Some(%s) => %s, None => 0 })" % (e, tmp, tmp)
         if wrap == "hostarg":
             return "keep(%s)" % e
         if wrap == "method":
             return "num(%s.to_string())" % e
+        if wrap == "methodarg":
+            return 'num("".append(f"{%s}"))' % e
         if wrap == "fstring":
             return 'num(f"{%s}")' % e
         return "(0 - (0 - %s))" % e
+
+    def use_ctx():
+        """one use site of a context variable; its value is CtxVal"""
+        if rng.random() < 0.5:
+            return use_int(rng.choice(["ctxv", "ctxw"]), "ctx", "x", None, True)
+        form = rng.choice(STR_FORMS)
+        styles_used.add("use:ctx:" + form)
+        sv = str(CTXVAL)
+        return {
+            "s_hostarg": "num(ctxs)",
+            "s_method": "num(ctxs.to_uppercase())",
+            "s_method2": "num(ctxs.trim())",
+            "s_len": "(if ctxs.bytes().len() == %d { %d } else { 0 })" % (len(sv), CTXVAL),
+            "s_cond": '(if ctxs.contains("%s") { %d } else { 0 })' % (sv, CTXVAL),
+            "s_methodarg": 'num("".append(ctxs))',
+            "s_fstring": 'num(f"{ctxs}")',
+            "s_letblock": "num({ let x = ctxs; x })",
+            "s_eq": '(if ctxs == "%s" { %d } else { 0 })' % (sv, CTXVAL),
+        }[form]
 
     def terms(i, in_fn):
         m = home[i]
@@ -235,7 +271,7 @@ def make_script(g, rng, layout_idx=None, order=None):
             else:
                 ts.append(mention(m, j, "n - 1" if in_fn else str(FUEL)))
         if i in g["ctx"]:
-            ts.insert(rng.randrange(len(ts) + 1), rng.choice(["ctxv", "ctxw", "(ctxv)", "({ let x = ctxw; x })"]))
+            ts.insert(rng.randrange(len(ts) + 1), use_ctx())
         return ts
 
     decls = {m: [] for m in range(nmod)}
@@ -592,9 +628,12 @@ def run_body(tier, ev, verd):
     # the small graphs first is fine, but mix families so that every chunk has accepted and rejected runs
     rng.shuffle(graphs)
     chunk = 12000 if tier == "quick" else 4000
-    for lo in range(0, len(graphs), chunk):
+    # a small first chunk: on a broken tree (thousands of crashing workers are slow) violations show up early
+    bounds = [0, min(2000, len(graphs))] + list(range(2000 + chunk, len(graphs), chunk)) + [len(graphs)]
+    bounds = sorted(set(bounds))
+    for lo, hi in zip(bounds, bounds[1:]):
         cases = []   # (expectation, hcase)
-        for c in graphs[lo:lo + chunk]:
+        for c in graphs[lo:hi]:
             g = graph_of(c)
             n = g["n"]
             if tier == "quick":
@@ -645,16 +684,22 @@ def run_body(tier, ev, verd):
                 selfchecked = True
         ev.traces += validate_runs(runs, verd, ev, "s2i", nfiles=6)
         vlib.log("C14: %d scripts compiled, compared and validated (%.0fs)" % (nscripts, time.time() - ev.t0))
-        if len(verd.violations) >= 100:
+        if len(verd.violations) >= 25:
             vlib.log("C14: %d violations so far, not generating further cases" % len(verd.violations))
             rc = verd.finish()
             ev.write(len(verd.violations))
             return rc
     if not selfchecked and not verd.violations:
         raise vlib.ToolError("no suitable recorded run for the corruption self-check")
-    want_styles = {"path:plain", "path:abs", "path:rel", "path:import_top", "path:import_local", "wrap:direct", "wrap:block",
-                   "wrap:letblock", "wrap:ifelse", "wrap:hostarg", "wrap:paren", "wrap:neg", "wrap:method", "wrap:fstring", "const:0", "const:1", "const:2",
-                   "fn:0", "fn:1", "fn:2"}
+    want_styles = {"path:plain", "path:abs", "path:rel", "path:import_top", "path:import_local",
+                   "const:0", "const:1", "const:2", "fn:0", "fn:1", "fn:2"}
+    # every use form must occur in the constant role and in the context role (and, except the method
+    # receiver form which needs a path, for function results)
+    for f in INT_FORMS + ["direct"]:
+        want_styles |= {"use:const:" + f, "use:ctx:" + f}
+        if f not in PATH_ONLY_FORMS:
+            want_styles.add("use:fn:" + f)
+    want_styles |= {"use:ctx:" + f for f in STR_FORMS}
     if want_styles - styles:
         raise vlib.ToolError("reference styles never generated: %s" % sorted(want_styles - styles))
     for k in ("ok/none", "rejected/cycle", "rejected/ctx", "rejected/cycle+ctx"):
